@@ -175,12 +175,14 @@ TINY = 1.0e-40
 
 # Planck units
 hbar_mks = 0.5 * planck_mks / np.pi
-planck_mass_kg = np.sqrt(hbar_mks * speed_of_light_m_per_s / newton_mks)
-planck_length_m = np.sqrt(hbar_mks * newton_mks / speed_of_light_m_per_s**3)
+planck_mass_kg = float(np.sqrt(hbar_mks * speed_of_light_m_per_s / newton_mks))
+planck_length_m = float(np.sqrt(hbar_mks * newton_mks / speed_of_light_m_per_s**3))
 planck_time_s = planck_length_m / speed_of_light_m_per_s
 planck_energy_J = planck_mass_kg * speed_of_light_m_per_s * speed_of_light_m_per_s
 planck_temperature_K = planck_energy_J / boltzmann_constant_J_per_K
-planck_charge_C = np.sqrt(4.0 * np.pi * eps_0 * hbar_mks * speed_of_light_m_per_s)
+planck_charge_C = float(
+    np.sqrt(4.0 * np.pi * eps_0 * hbar_mks * speed_of_light_m_per_s)
+)
 
 # Imperial and other non-metric units
 kg_per_pound = 0.45359237
@@ -194,4 +196,4 @@ us_fl_oz_per_L = 0.0295735295625e-3
 # logarithmic units
 # IEC 60027-3: https://webstore.iec.ch/publication/94
 # NIST Special Publication 811: https://www.nist.gov/pml/special-publication-811
-neper_per_bel = np.log(10) / 2
+neper_per_bel = float(np.log(10) / 2)
